@@ -162,6 +162,11 @@ def child_cli(desc: dict) -> dict:
 
     patches.install()
     patches.install_determinism(PRNG_ALIGN)
+    import warnings as _warnings
+
+    saved_filters = _warnings.filters[:]
+    if (desc.get("knobs") or {}).get("warnings_error"):
+        _warnings.simplefilter("error")
     try:
         sys.argv = ["oneliner"] + list(desc["argv"])
         sys.stdout = fs.make_stdout()
@@ -198,6 +203,7 @@ def child_cli(desc: dict) -> dict:
     finally:
         out_obj = sys.stdout
         sys.argv, sys.stdout, sys.stderr = old
+        _warnings.filters[:] = saved_filters
         patches.uninstall()
     del out_obj
     return {
@@ -482,6 +488,7 @@ def gen_base(seed: int, attr_names=None) -> dict:
         "stdout_encoding": rng.choice(["utf-8", "utf-8", "utf-8", "ascii", "latin-1", "cp1252"]),
         "stdout_isatty": rng.random() < 0.25,
         "stderr_closed": rng.random() < 0.1,  # the process was started with descriptor 2 closed: sys.stderr is None
+        "warnings_error": rng.random() < 0.1,  # python -W error / PYTHONWARNINGS=error
     }
     return materialise({
         "prop": "C16", "seed": seed, "parts": parts, "out_mode": "stdout" if out_mode == "stdout" else "file",
@@ -691,6 +698,10 @@ def judge(ctx: C16Ctx, desc: dict, res: dict) -> list:
     out_p = SimFS.norm(desc["out_path"]) if desc["out_path"] else None
     fired = res["fired"]
     error_fault = any(f["kind"] not in BENIGN for f in fired)
+    if desc["knobs"].get("warnings_error") and any(it["cls"] == "legacy" for it in desc["items"]):
+        # the user asked for warnings to be errors and used the deprecated flag: failing is fine
+        # (exit 0 must still mean the right text)
+        error_fault = True
     has_invalid = any(it["cls"] in INVALID_CLASSES for it in desc["items"])
     if res["passthrough"]:
         # the simulated process opened a real path through builtins.open: outside the model
